@@ -212,6 +212,7 @@ impl Store {
     pub fn upsert_proc(&self, proc: &Arc<scheduler::Process>) -> Result<()> {
         debug!("upsert process: {}", proc.id());
         let collection = self.procs();
+        let _row = proc.row_lock();
         let data: data::Proc = proc.into_data()?;
         match collection.find(proc.id()) {
             Ok(_) => {
